@@ -4,9 +4,11 @@ package harness
 
 import (
 	"fmt"
+	"strings"
 	"testing"
 
 	"github.com/platinummonkey/go-concurrency-limits/core"
+	"github.com/platinummonkey/go-concurrency-limits/limit"
 	"github.com/platinummonkey/go-concurrency-limits/strategy"
 
 	"pgregory.net/rapid"
@@ -147,6 +149,107 @@ func TestC20_limiter_metrics(t *testing.T) {
 type c20LCase struct {
 	Cfg     LimitCfg `json:"cfg"`
 	Samples []Sample `json:"samples"`
+}
+
+// ---- limits behind wrappers: every layer's limit gauge reports the estimate in force -------------------------------
+
+type c20WCase struct {
+	Cfg LimitCfg `json:"cfg"`
+	Ops []c16Op  `json:"ops"` // sample | set (settable delegate: the estimate moves without any sample passing the wrappers)
+}
+
+func TestC20_wrapped_limit_gauges(t *testing.T) {
+	kit.RequireMode(t, "std")
+	kit.Check(t, kit.Prop[c20WCase]{
+		ID: "C20", Quick: 1500, Thor: 200_000,
+		Rule: "limits behind windowed / traced wrappers (stacked too), all built over a recording registry; samples and - for a settable delegate - explicit SetLimit calls: after every operation every registered limit gauge (wrapper's and algorithm's) equals EstimatedLimit() of the outermost wrapper; the outermost windowed wrapper emits each sample it is given exactly once; non-trivial = the estimate changed at least once while a wrapper was in place",
+		Gen: func(t *rapid.T) c20WCase {
+			c := c20WCase{Cfg: genLimitCfg(t, []string{"aimd", "vegas", "gradient", "gradient2", "settable", "settable"}, true)}
+			if !c.Cfg.Windowed && !c.Cfg.Traced {
+				c.Cfg.Windowed = true
+				c.Cfg.WinSize, c.Cfg.WinMin, c.Cfg.WinMax, c.Cfg.WinThreshold = 10, 100e6, 100e6, 1
+			}
+			n := rapid.IntRange(1, 60).Draw(t, "n")
+			ss := genSamples(t, c.Cfg, n)
+			j := 0
+			for i := 0; i < n; i++ {
+				if c.Cfg.Algo == "settable" && rapid.IntRange(0, 2).Draw(t, "set") == 0 {
+					c.Ops = append(c.Ops, c16Op{K: "set", N: rapid.IntRange(-2, 400).Draw(t, "setn")})
+				} else if j < len(ss) {
+					c.Ops = append(c.Ops, c16Op{K: "sample", S: ss[j]})
+					j++
+				}
+			}
+			return c
+		},
+		Run: func(_ *testing.T, c c20WCase) kit.Outcome {
+			reg := newRecRegistry()
+			b := buildLimit(c.Cfg, reg)
+			outerName := ""
+			switch {
+			case c.Cfg.Outer2 == "windowed":
+				outerName = "w2"
+			case c.Cfg.Windowed && c.Cfg.Outer2 == "":
+				outerName = "w"
+			}
+			changed := false
+			for i, op := range c.Ops {
+				before := b.Outer.EstimatedLimit()
+				reg.take()
+				var inf int
+				switch op.K {
+				case "set":
+					sl, ok := b.Inner.(*limit.SettableLimit)
+					if !ok {
+						continue
+					}
+					sl.SetLimit(op.N)
+				case "sample":
+					inf = op.S.inflight(before)
+					b.Outer.OnSample(op.S.Start, op.S.RTT, inf, op.S.Drop)
+				}
+				est := b.Outer.EstimatedLimit()
+				changed = changed || est != before
+				reg.mu.Lock()
+				gs := append([]recGauge(nil), reg.Gauges...)
+				reg.mu.Unlock()
+				seen := 0
+				for _, g := range gs {
+					if !strings.HasSuffix(g.ID, "."+core.MetricLimit) {
+						continue
+					}
+					seen++
+					if v, ok := g.Supplier(); !ok || int(v) != est {
+						return kit.Viol("wrapped:limit-gauge", "op %d %+v: gauge %q reports %v (ok=%v) while EstimatedLimit() of the outermost wrapper is %d (before the operation %d)", i, op, g.ID, v, ok, est, before)
+					}
+				}
+				if seen == 0 {
+					return kit.Viol("wrapped:limit-gauge", "no limit gauge registered at all")
+				}
+				if op.K == "sample" && outerName != "" {
+					var rtt, infs, drop int
+					for _, x := range reg.take() {
+						switch x.ID {
+						case core.PrefixMetricWithName(core.MetricRTT, outerName):
+							rtt++
+						case core.PrefixMetricWithName(core.MetricInFlight, outerName):
+							infs++
+						case core.PrefixMetricWithName(core.MetricDropped, outerName):
+							drop++
+						}
+					}
+					wantDrop := 0
+					if op.S.Drop {
+						wantDrop = 1
+					}
+					if rtt != 1 || infs != 1 || drop != wantDrop {
+						return kit.Viol("wrapped:sample-metrics", "op %d: sample %+v given to the windowed wrapper %q emitted rtt x%d, in-flight x%d, dropped x%d", i, op.S, outerName, rtt, infs, drop)
+					}
+				}
+			}
+			return kit.Outcome{NonTrivial: changed, Labels: []string{"algo:" + c.Cfg.Algo, "outer2:" + c.Cfg.Outer2}}
+		},
+	})
 }
 
 func TestC20_limit_metrics(t *testing.T) {
